@@ -465,11 +465,14 @@ fn check_tape(tape: &[u8], gates: &Gates, codes: &[String], stats: &mut Stats, c
         let deeper = nest.join("deeper");
         std::fs::create_dir_all(&deeper).unwrap();
         let mut deep_files = vec![];
+        // (half of the time the deeper files are NAMED like files of the upper directory: two files of
+        // a set may have the same name as long as their directories differ)
+        let same_names = choice.flag() && files.len() - k <= k;
         for (i, f) in files.iter().enumerate() {
             if i < k {
                 std::fs::write(nest.join(crate::drive::set_file_name(i)), &disk(&f.text)).unwrap();
             } else {
-                let p = deeper.join(crate::drive::set_file_name(i));
+                let p = deeper.join(crate::drive::set_file_name(if same_names { i - k } else { i }));
                 std::fs::write(&p, &disk(&f.text)).unwrap();
                 deep_files.push(p.to_string_lossy().to_string());
             }
@@ -487,7 +490,7 @@ fn check_tape(tape: &[u8], gates: &Gates, codes: &[String], stats: &mut Stats, c
             args.extend(ord.clone());
             if let (Some(o), Some(b)) = (observe_check(&args), &base) {
                 if counting {
-                    stats.class("check.directory-and-paths-below-it");
+                    stats.class(if same_names { "check.directory-and-paths-below-it.same-file-names" } else { "check.directory-and-paths-below-it" });
                 }
                 channels_agree(&o, codes, "check <dir> <paths below dir>").map_err(|(k2, d2)| fail("channels", &k2, d2))?;
                 if (o.status == Some(0)) != (b.0 == Some(0)) {
